@@ -34,6 +34,7 @@ type SeqScenario struct {
 	GapMs  int64            `json:"gap_ms"` // STATETTL scenarios: real-time pause before every row
 	TTLMs  int64            `json:"ttl_ms"` // STATETTL of the query: the trace is voided when the driver itself let a group idle too long
 	Span   int              `json:"span"`   // rows of one group are at most this many positions apart
+	MaxGap int64            `json:"max_gap_ms"` // real-time scenarios: two rows handed in one after the other (no sleep between them) must not be further apart; else the trace is void
 	Reuse  bool             `json:"reuse"`  // the producer re-uses ONE map object for all its rows (cleared and refilled before each call)
 	Conc   bool             `json:"conc"`   // JOIN scenarios: table updates run in a goroutine of their own, concurrently with EmitSync callers
 	Seed   int64            `json:"seed"`
@@ -63,6 +64,7 @@ type SeqOp struct {
 	Op    string           `json:"op"` // emit | sync | upsert | delete | register (a table registered again under its name, replacing the earlier one)
 	Rows  []map[string]any `json:"rows"`
 	Keys  []string         `json:"keys"`
+	Ms    int64            `json:"ms"` // sleep: milliseconds of real time
 	Row   map[string]any   `json:"row"`
 	Table string           `json:"table"`
 	Key   []any            `json:"key"`
@@ -240,6 +242,7 @@ func RunSeq(sc SeqScenario) (evs []Ev, inconclusive string) {
 	var handed []held
 	var emitTimes []time.Time
 	var reused map[string]any
+	var lastEmit time.Time
 	for i, op := range ops {
 		switch op.Op {
 		case "emit", "sync":
@@ -291,6 +294,13 @@ func RunSeq(sc SeqScenario) (evs []Ev, inconclusive string) {
 						in.Log(Ev{"tr": sc.Tr, "e": "void", "why": "driver paused longer than 0.7 STATETTL between rows of a group"})
 					}
 				}
+				if sc.MaxGap > 0 {
+					now := time.Now()
+					if !lastEmit.IsZero() && now.Sub(lastEmit) > time.Duration(sc.MaxGap)*time.Millisecond {
+						in.Log(Ev{"tr": sc.Tr, "e": "void", "why": "driver could not keep its real-time schedule (CPU starvation)"})
+					}
+					lastEmit = now
+				}
 				nEmit++
 				s.Emit(row)
 				if !sc.Burst && !in.WaitFor(T, quiet) {
@@ -302,6 +312,9 @@ func RunSeq(sc SeqScenario) (evs []Ev, inconclusive string) {
 					return in.Events(), fmt.Sprintf("row %d not fully processed", i+1)
 				}
 			}
+		case "sleep":
+			time.Sleep(time.Duration(op.Ms) * time.Millisecond)
+			lastEmit = time.Time{}
 		case "register":
 			rows := make([]map[string]any, len(op.Rows))
 			arows := make([]any, len(op.Rows))
